@@ -146,6 +146,148 @@ def oracle_statement(ctx, f, entry, sql, known, stats):
                                         requires="every identifier, number and string written in an accepted statement occurs in the tree"))
 
 
+SCRUB_HEADER = """From Coq Require Import List ZArith String Bool.
+From MoSql Require Import Base.Json Model.Scrub Model.ScrubAtoms Proofs.Slots.
+Import ListNotations.
+Open Scope string_scope. Open Scope list_scope.
+Definition case := (mode * fmap_t * jv * raw * option jv * list atom)%type.
+Definition corr (c : case) : bool :=
+  let '(m, fm, x, r, e, _) := c in
+  match parse_result m fm x r, e with Some v, Some w => jv_eqb v w | None, None => true | _, _ => false end.
+Definition good (c : case) : bool := let '(m, fm, x, r, e, _) := c in goodb m fm r.
+Fixpoint idx_where {A} (f : A -> bool) (i : nat) (l : list A) : list nat :=
+  match l with [] => [] | a :: t => (if f a then [i] else []) ++ idx_where f (S i) t end.
+(* which of the candidate atoms (user-written tokens that the raw result holds) does scrub never visit *)
+Definition hid (c : case) : list nat :=
+  let '(m, fm, x, r, e, cand) := c in
+  let h := hidden m fm r in idx_where (fun a => existsb (atom_eqb a) h) 0 cand.
+"""
+
+
+def user_atoms(sql, gw):
+    """value -> (kind, start, end) of the first token that writes it; words that the grammar knows as keywords are left out"""
+    out = {}
+    for m in TOK.finditer(sql):
+        kind, txt = m.lastgroup, m.group(0)
+        if kind == "word":
+            if len(txt) > 1 and txt.lower() in gw:
+                continue        # (one-letter grammar words are the duration units; as identifiers they are ordinary atoms)
+            val = txt
+        elif kind == "num":
+            try:
+                val = int(txt)
+            except ValueError:
+                try:
+                    val = float(txt)
+                except ValueError:
+                    continue
+        elif kind == "str":
+            val = txt[txt.index("'") + 1:-1].replace("''", "'")
+        elif kind == "dq":
+            val = txt[1:-1].replace('""', '"')
+        elif kind == "bt":
+            val = txt[1:-1].replace("``", "`")
+        else:
+            continue
+        out.setdefault((type(val).__name__, val), (kind, m.start(), m.end()))
+    return out
+
+
+def catom(v):
+    if isinstance(v, str):
+        return "(AStr %s)" % cstr(v)
+    if isinstance(v, int):
+        return "(AInt %s)" % cz(v)
+    return "(AFloat %s)" % cstr(repr(v))
+
+
+def scrub_stage(ctx, stmts, known):
+    """the scrub stage at model level (Props/C05s.v): capture the raw result that reaches scrub, evaluate Model.ScrubAtoms.hidden on it inside Coq,
+    and demand that every user-written atom which scrub never visits and the tree does not hold either belongs to a listed finding"""
+    import l2, concurrent.futures as cf
+    from props import c07
+    okp, outp = ctx.prove("Props.C05s", THMS_S)
+    gw = set(c07.grammar_words())
+    l2.U = impl.build_all()
+    l2.FLAT_ATOMS = True
+    cases, meta = [], []
+    try:
+        for entry, sql in stmts:
+            st, val, cap, x = l2.run_case(entry, sql, "simple", "default", None)
+            if st != "ok" or len(cap) != 1:
+                continue
+            raw, out = cap[0]
+            try:
+                term = l2.dump(raw, {})
+            except l2.Outside:
+                continue
+            if len(term) > 60000:
+                continue
+            ua = user_atoms(sql, gw)
+            held = {(type(a).__name__, a) for a in l2.leaf_atoms(raw, [])}
+            cand = [k for k in ua if k in held]
+            base = l2.coq_case("simple", None, x, term, out)
+            cases.append("(%s, %s)" % (base[1:-1], clist([catom(v) for _, v in cand])))
+            meta.append(dict(entry=entry, sql=sql, cand=cand, where=[ua[k] for k in cand], tree=val))
+    finally:
+        l2.FLAT_ATOMS = False
+    shard = 150
+    shards = [cases[i:i + shard] for i in range(0, len(cases), shard)]
+
+    def one(i):
+        body = SCRUB_HEADER + "Definition cases : list case := [\n" + ";\n".join(shards[i]) + "\n].\n"
+        body += "Eval vm_compute in idx_where (fun c => negb (corr c)) 0 cases.\nEval vm_compute in idx_where (fun c => negb (good c)) 0 cases.\nEval vm_compute in map hid cases.\n"
+        ok, out = ctx.coq_eval("c05s_%d" % i, body)
+        if not ok:
+            return None, out
+        parts = re.findall(r"=\s*(\[.*?\])\s*:\s*list", out, re.S)
+        if len(parts) != 3:
+            return None, out
+        return [json.loads(b.replace(";", ",")) for b in parts], out
+
+    mism, ungood, hid = [], [], []
+    with cf.ThreadPoolExecutor(max_workers=min(NCPU, 12)) as ex:
+        for i, (res, out) in enumerate(ex.map(one, range(len(shards)))):
+            if res is None:
+                ctx.obligation("scrub stage evaluated in Coq", False, out[-1500:])
+                ctx.violation("obligation", dict(broken="Model/ScrubAtoms.v case file could not be evaluated by coqc", log=out[-1500:]), no_input=True)
+                return
+            mism += [i * shard + j for j in res[0]]
+            ungood += [i * shard + j for j in res[1]]
+            hid += res[2]
+    ctx.checker_cmds.append("coqc -Q coq MoSql <generated case files> (Eval vm_compute)")
+    ctx.traces += len(cases)
+    ctx.obligation("correspondence: Model.Scrub.parse_result = utils.scrub + NULL substitution on %d captured raw results (all statement kinds)" % len(cases), not mism)
+    for i in mism[:5]:
+        ctx.violation("input", dict(entry=meta[i]["entry"], sql=meta[i]["sql"], returned=short(meta[i]["tree"], 600), broken="correspondence Model.Scrub vs utils.scrub (C05_scrub_keeps_visited is proved about the model)"), no_input=True)
+    n_hidden = n_lost = 0
+    for i, idxs in enumerate(hid):
+        mt = meta[i]
+        for j in idxs:
+            n_hidden += 1
+            (tn, v), (kind, s, e) = mt["cand"][j], mt["where"][j]
+            acc = leaves(mt["tree"], set())
+            if tn in ("int", "float"):
+                here = repr(abs(v)) in acc
+            else:
+                here = any(v.lower() == a or v.lower() in a.split(".") for a in acc)    # exact leaf or key, or one segment of a dotted path
+            if here:
+                continue
+            n_lost += 1
+            key = classify(mt["sql"], s, e, mt["sql"][s:e], kind, mt["tree"])
+            if key and key in known:
+                ctx.known(key, "%s e.g. %s" % (known[key]["what"], known[key]["witness"]))
+                continue
+            ctx.violation("input", dict(entry=mt["entry"], sql=mt["sql"], lost_atom=str(v), atom_kind=kind, returned=short(mt["tree"], 900),
+                                        mechanism="the raw parse result holds this atom only in an unnamed token beside named ones: Model.ScrubAtoms.hidden lists it and scrub never visits it",
+                                        requires="every identifier, number and string written in an accepted statement occurs in the tree"))
+    ctx.extra["scrub_stage"] = dict(raw_results=len(cases), premise_goodb_fails_on=len(ungood), user_atoms_hidden_from_scrub=n_hidden, of_which_absent_from_the_tree=n_lost,
+                                    theorem="on the %d results where goodb holds, every visited atom is in the tree (C05_scrub_keeps_visited); hidden atoms are checked one by one" % (len(cases) - len(ungood)))
+
+
+THMS_S = ["C05_scrub_keeps_visited", "C05_scrubbed_away_is_empty", "C05_scrub_keeps_all", "C05_unnamed_beside_named_refuted"]
+
+
 def run(ctx):
     T = l1.load_tables()
     ctx.rule = ("accepted statements = captured corpus + grammar-directed generator + expression generator; for every identifier / number / string occurrence found by an independent lexer "
@@ -166,9 +308,20 @@ def run(ctx):
     g.ordered_set = True
     gen = [g.statement() for _ in range(ctx.n(400, 6000))]
     stmts += [("common_parser", x) for x in gen if len(x) < 260][:ctx.n(110, 2500)]
+    # every shape of INSERT / REPLACE rows (the literal-rows and the general path of to_insert_call differ by column and row count)
+    for verb in ("insert into", "replace into"):
+        for ncol in range(0, 4):
+            for nrows in range(1, 4):
+                for lit in (True, False):
+                    cols = ["col%dx%d" % (ncol, i) for i in range(ncol)]
+                    width = ncol or rnd.randint(1, 3)
+                    val = (lambda: rnd.choice([str(rnd.randint(100, 999)), "'s%d'" % rnd.randint(10, 99)])) if lit else (lambda: g.expr(1))
+                    rows = ", ".join("(" + ", ".join(val() for _ in range(width)) + ")" for _ in range(nrows))
+                    stmts.append(("common_parser", "%s tab%d%s values %s" % (verb, nrows, " (" + ", ".join(cols) + ")" if cols else "", rows)))
     # witnesses of listed findings that the generators do not produce
     stmts += [("common_parser", "select a from t where c1 between 7 or c2"), ("common_parser", "select c1 not between 3 from t"),
-              ("common_parser", "select c1[1].q2[3] from t"), ("common_parser", "select c1::int[2] from t"), ("common_parser", "select c1 #> c2 from t9")]
+              ("common_parser", "select c1[1].q2[3] from t"), ("common_parser", "select c1::int[2] from t"), ("common_parser", "select c1 #> c2 from t9"),
+              ("common_parser", "select sum(x1) over (partition by p1 w2) from t3"), ("common_parser", "create index xi1 on xt2 (xa3) xo5 xo6")]
     for entry, sql in stmts:
         f = impl.ENTRY[entry]
         st, _ = impl.outcome(f, sql)
@@ -177,6 +330,7 @@ def run(ctx):
         stats["statements"] += 1
         oracle_statement(ctx, f, entry, sql, known, stats)
     ctx.extra["oracle"] = dict(stats)
+    scrub_stage(ctx, [x for x in stmts if len(x[1]) < 700], known)
     ctx.sample(dict(statement=stmts[-1][1]))
     # ---- model level: parse' on token strings; every leaf of a premise-satisfying tree is in the model's result, and model = implementation
     lv, bad, log = c01.ref_levels(ctx, T) if ok else (None, None, out)
@@ -203,7 +357,7 @@ def run(ctx):
         ctx.obligation("correspondence evaluated", False, log[-2000:])
         ctx.violation("obligation", dict(what="correspondence check could not be evaluated by coqc", log=log[-2000:]), no_input=True)
         return
-    ctx.traces = len(cases)
+    ctx.traces += len(cases)
     ctx.obligation("correspondence: model reader/reducer/to_json_operator = implementation on %d token strings" % len(cases), not res["parse"] and not res["tok"])
     ctx.extra["premise_holds_on"] = len(cases) - len(res["prem"])
     for i in (res["parse"] + res["tok"])[:5]:
